@@ -47,6 +47,9 @@ def cells(thorough=False):
                     ("0.0", XSD.double), ("1.5E0", XSD.double), ("1.5", XSD.decimal), ("2024-01-01", XSD.date), ("x", XSD.integer)]:
         out.append(["L", lex, str(dt), None])
     out.append(["L", "x", None, "en-US"])
+    # characters that some line readers treat as line boundaries
+    for s in ["a\u2028b", "\u0085", "a\x0cb", "\x1c", "\x0b"]:
+        out.append(["L", s, None, None])
     return out
 
 
@@ -200,7 +203,10 @@ def check_table(nvars, rows):
     res = build_result(nvars, rows)
     exp = table_keys(res, nvars)
     exp_vars = [str(x) for x in res.vars]
+    xml_ok = not any(d is not None and d[0] == "L" and any(ord(c) < 0x20 and c not in "\t\n\r" for c in d[1]) for r in rows for d in r)
     for fmt in ("json", "xml"):
+        if fmt == "xml" and not xml_ok:
+            continue  # XML 1.0 cannot carry the character
         try:
             data = build_result(nvars, rows).serialize(format=fmt)
             back = Result.parse(io.BytesIO(data), format=fmt)
@@ -220,10 +226,10 @@ def check_table(nvars, rows):
                                                             " ".join("(%s)" % " ".join("UNDEF" if d is None else mk(d).n3() for d in r) for r in rows))
             res_q = _ENGINE.query(q)
             first = res_q.serialize(format="json")
-            second = res_q.serialize(format="xml")
+            second = res_q.serialize(format="xml" if xml_ok else "json")
             list(res_q)
             third = res_q.serialize(format="json")
-            for label, fmt, data in (("first", "json", first), ("second", "xml", second), ("after-iteration", "json", third)):
+            for label, fmt, data in (("first", "json", first), ("second", "xml" if xml_ok else "json", second), ("after-iteration", "json", third)):
                 back = Result.parse(io.BytesIO(data), format=fmt)
                 got = table_keys(back, nvars)
                 if [str(x) for x in back.vars] != exp_vars or got != exp:
